@@ -96,20 +96,32 @@ Lemma flat_map_map {A B C} (f : B -> list C) (g : A -> B) l :
   flat_map f (map g l) = flat_map (fun x => f (g x)) l.
 Proof. induction l as [|a l IH]; cbn; [reflexivity|]. now rewrite IH. Qed.
 
-Lemma dedupe_In x l : In x (dedupe l) <-> In x l.
+Lemma add_all_In x l : forall acc, In x (add_all acc l) <-> In x acc \/ In x l.
 Proof.
-  induction l as [|a r IH]; cbn; [tauto|]. rewrite filter_In, IH.
-  destruct (String.eqb a x) eqn:E.
-  - apply String.eqb_eq in E. subst. tauto.
-  - cbn. apply String.eqb_neq in E. split; [tauto|]. intros [H|H]; [tauto|]. right. auto.
+  induction l as [|a r IH]; intros acc; cbn; [tauto|]. rewrite IH.
+  destruct (existsb (String.eqb a) acc) eqn:E.
+  - apply existsb_exists in E as (y & Hy & Ey). apply String.eqb_eq in Ey. subst y.
+    split; [tauto|]. intros [H|[H|H]]; subst; auto.
+  - rewrite in_app_iff. cbn. tauto.
 Qed.
 
-Lemma dedupe_NoDup l : NoDup (dedupe l).
+Lemma add_all_NoDup l : forall acc, NoDup acc -> NoDup (add_all acc l).
 Proof.
-  induction l as [|a r IH]; cbn; constructor.
-  - rewrite filter_In. intros [_ H]. now rewrite String.eqb_refl in H.
-  - now apply NoDup_filter.
+  induction l as [|a r IH]; intros acc H; cbn; [exact H|]. apply IH.
+  destruct (existsb (String.eqb a) acc) eqn:E; [exact H|].
+  apply NoDup_app_intro; [exact H | repeat constructor; intros [] |].
+  intros x Hx [<-|[]]. assert (existsb (String.eqb a) acc = true); [|congruence].
+  apply existsb_exists. exists a. split; [exact Hx | apply String.eqb_refl].
 Qed.
+
+Lemma add_all_app acc a b : add_all acc (a ++ b) = add_all (add_all acc a) b.
+Proof. revert acc; induction a as [|x a IH]; intros acc; cbn; [reflexivity | apply IH]. Qed.
+
+Lemma dedupe_In x l : In x (uniq l) <-> In x l.
+Proof. unfold uniq. rewrite add_all_In. cbn. tauto. Qed.
+
+Lemma dedupe_NoDup l : NoDup (uniq l).
+Proof. apply add_all_NoDup. constructor. Qed.
 
 (* ------------------------------------------------------------------ *)
 (* titles and paths *)
@@ -278,7 +290,7 @@ Variable r : report.
 Hypothesis W : writable r = true.
 
 Let Hlev : levels_ok 0 r = true. Proof. unfold writable in W. now apply andb_true_iff in W. Qed.
-Let Htit : titles_ok (map fig_name (dedupe (all_images r))) [] r = true.
+Let Htit : titles_ok (map fig_name (uniq (all_images r))) [] r = true.
 Proof. unfold writable in W. now apply andb_true_iff in W. Qed.
 
 Lemma key_facts k n : In (k, n) (secs [] r) ->
@@ -319,12 +331,12 @@ Qed.
 
 (* ---- no path is written twice ---- *)
 Lemma paths_nodup :
-  NoDup (map wr_path (WConf :: WCss :: map WPage (pages r) ++ map WFig (dedupe (all_images r)))).
+  NoDup (map wr_path (WConf :: WCss :: map WPage (pages r) ++ map WFig (uniq (all_images r)))).
 Proof.
   cbn [map]. rewrite map_app, !map_map. cbn [wr_path].
   assert (Hpg : forall x, In x (map (fun p => add_rst (p_doc p)) (pages r)) -> is_rst_path x = true).
   { intros x Hx. apply in_map_iff in Hx as (p & <- & Hp). apply add_rst_last. now apply page_docs_nonempty. }
-  assert (Hfg : forall x, In x (map (fun i => ["figures"%string; fig_name i]) (dedupe (all_images r))) ->
+  assert (Hfg : forall x, In x (map (fun i => ["figures"%string; fig_name i]) (uniq (all_images r))) ->
                           is_rst_path x = false /\ length x = 2 /\ hd ""%string x = "figures"%string).
   { intros x Hx. apply in_map_iff in Hx as (i & <- & _). unfold is_rst_path. cbn [last length hd].
     split; [apply ends_rst_fig | auto]. }
